@@ -14,11 +14,11 @@ import Pog.Lemmas.Http
   `✗` marks parts of the full statement that are FALSE of the current code.
 
     composition order     : a composite is the left-to-right Kleisli fold of its plug-ins          (full)
-    sequential writes     : the headers dict is `{}` updated with defaults, request headers,
-                            plug-in writes, in that order; for EXACT key strings the last writer wins (full)
-    header precedence     : on the WIRE (case-insensitive names) the last writer wins                ✗
-                            — `x-b` default + `X-B` per-request header are BOTH sent;
-                            holds when no two written names differ only in case                   (partial)
+    sequential writes     : the headers dict is `{}` merged (`merge_headers`: a write deletes the other
+                            spellings of its name) with defaults, request headers, plug-in writes, in that
+                            order; an EXACT key is present iff the last writer of that name spelled it so   (full)
+    header precedence     : on the WIRE (case-insensitive names) the last writer wins, one line per name  (full)
+                            — F27a repaired: `x-b` default + `X-B` per-request header used to be BOTH sent
     API key, header       : placed under the configured name                                        (full)
     API key, query/cookie : placed in the configured location                                        ✗
                             — the key reaches httpx NOWHERE, for every key/name/caller arguments  (total defect)
@@ -47,28 +47,30 @@ theorem composite_contrib (ps : List Plugin) :
   | nil => simp [contribAll]
   | cons p ps ih => simp [contribAll, ih]
 
-/-! ## the headers dict = sequential writes; last writer wins for exact keys -/
+/-! ## the headers dict = sequential case-insensitive writes -/
 
 /-- `_prepare_headers` raises exactly the exception of the first failing plug-in, otherwise its result is
-    `{}` updated — Python `dict.update`, in this order — with the default headers, the per-request
+    `{}` merged — `merge_headers`, in this order — with the default headers, the per-request
     headers, and each plug-in's writes in composition order (or the `bearer_token` line). -/
 theorem headers_are_sequential_writes (defaults reqHeaders : Option Dict) (auth : Option Plugin)
     (bearer : Option Str) :
     prepareHeaders defaults reqHeaders auth bearer =
       match auth.bind firstErr with
       | some e => .error e
-      | none => .ok (dictUpdate [] (allWrites defaults reqHeaders auth bearer)) :=
+      | none => .ok (dictUpdateCI [] (allWrites defaults reqHeaders auth bearer)) :=
   prepareHeaders_spec defaults reqHeaders auth bearer
 
-/-- For EXACT (case-sensitive) keys the last writer wins, unconditionally: the value under `k` is the
-    plug-ins' last write to `k`, else the per-request header `k`, else the default `k`.  Every written key
-    is present and no key occurs twice. -/
+/-- The dict handed to httpx, read by EXACT (case-sensitive) key: `k` is present iff the LAST writer of that
+    header name — in any spelling, among defaults, per-request headers, plug-ins in order — spelled it `k`,
+    and then it carries that writer's value; in particular a key that was only written in an earlier layer
+    under another spelling is gone.  No key occurs twice. -/
 theorem header_last_writer_wins_exact (defaults reqHeaders : Option Dict) (auth : Option Plugin)
     (bearer : Option Str) (res : Dict) (h : prepareHeaders defaults reqHeaders auth bearer = .ok res) :
     (∀ k, dictGet res k =
-        ((lastWrite (authWrites auth bearer) k).or (lastWrite (reqHeaders.getD []) k)).or
-          (lastWrite (defaults.getD []) k))
-    ∧ (∀ k, k ∈ dictKeys res ↔ k ∈ dictKeys (allWrites defaults reqHeaders auth bearer))
+        match lastWriterCI (allWrites defaults reqHeaders auth bearer) k with
+        | some w => if w.1 = k then some w.2 else none
+        | none => none)
+    ∧ (∀ k, k ∈ dictKeys res ↔ ∃ v, lastWriterCI (allWrites defaults reqHeaders auth bearer) k = some (k, v))
     ∧ (dictKeys res).Nodup := by
   rw [prepareHeaders_spec] at h
   cases he : auth.bind firstErr with
@@ -76,84 +78,90 @@ theorem header_last_writer_wins_exact (defaults reqHeaders : Option Dict) (auth 
   | none =>
     simp only [he, Except.ok.injEq] at h
     subst h
-    refine ⟨fun k => ?_, fun k => ?_, nodup_dictUpdate _ _ (by simp [dictKeys])⟩
-    · simp [dictGet_dictUpdate, allWrites, lastWrite_append, dictGet, Option.or_assoc]
-    · rw [mem_dictKeys_dictUpdate]; simp [dictKeys]
+    have hg : ∀ k, dictGet (dictUpdateCI [] (allWrites defaults reqHeaders auth bearer)) k =
+        match lastWriterCI (allWrites defaults reqHeaders auth bearer) k with
+        | some w => if w.1 = k then some w.2 else none
+        | none => none := by
+      intro k; rw [dictGet_dictUpdateCI]; cases lastWriterCI (allWrites defaults reqHeaders auth bearer) k <;> simp [dictGet]
+    refine ⟨hg, fun k => ?_, nodup_dictUpdateCI _ _ (by simp [dictKeys])⟩
+    rw [← dictGet_isSome_iff, hg]
+    cases hl : lastWriterCI (allWrites defaults reqHeaders auth bearer) k with
+    | none => simp
+    | some w =>
+      obtain ⟨k1, v1⟩ := w
+      by_cases hk : k1 = k
+      · subst hk; simp
+      · simp [hk]
 
-/-! ## header precedence on the wire
+/-! ## header precedence on the wire -/
 
-  ✗ FULL STATEMENT (false):
-      ∀ defaults reqHeaders auth bearer res name, prepareHeaders defaults reqHeaders auth bearer = .ok res →
-        wireLookup res name = (lastWriteCI (allWrites defaults reqHeaders auth bearer) name).toList
-  i.e. "one line per header name, carrying the value of the last writer".  HTTP header names are
-  case-insensitive but the merge is a case-sensitive `dict.update`. -/
-
-/-- Holds when no two written names (defaults ∪ request ∪ plug-in contributions) are equal ignoring case
-    but different as strings: then exactly one line is sent per written name and it carries the value of
-    the LAST writer among [plug-ins in order, per-request headers, defaults]; the dict view agrees. -/
-theorem header_precedence_partial (defaults reqHeaders : Option Dict) (auth : Option Plugin)
+/-- FULL STATEMENT (F27a repaired).  For every combination of default headers, per-request headers, auth
+    plug-in (any composition) and bearer token, whatever the spellings: under each header name (ASCII
+    case-insensitive, as httpx and HTTP read it) the request carries the value of the LAST writer among
+    [defaults, per-request headers, plug-ins in composition order / bearer token] and nothing else — i.e.
+    plug-ins over per-request headers over defaults; every written name is sent on exactly one line. -/
+theorem header_precedence (defaults reqHeaders : Option Dict) (auth : Option Plugin)
     (bearer : Option Str) (res : Dict)
-    (hc : CaseConsistent (allWrites defaults reqHeaders auth bearer))
     (h : prepareHeaders defaults reqHeaders auth bearer = .ok res) :
-    (∀ name, wireLookup res name =
+    (∀ name, wireLookup res name = (lastWriteCI (allWrites defaults reqHeaders auth bearer) name).toList)
+    ∧ (∀ name, wireLookup res name =
         (((lastWriteCI (authWrites auth bearer) name).or (lastWriteCI (reqHeaders.getD []) name)).or
           (lastWriteCI (defaults.getD []) name)).toList)
-    ∧ (∀ k, dictGet res k =
-        ((lastWrite (authWrites auth bearer) k).or (lastWrite (reqHeaders.getD []) k)).or
-          (lastWrite (defaults.getD []) k))
-    ∧ (∀ k ∈ dictKeys (allWrites defaults reqHeaders auth bearer), (dictGet res k).isSome = true) := by
-  have hx := header_last_writer_wins_exact defaults reqHeaders auth bearer res h
-  refine ⟨fun name => ?_, hx.1, fun k hk => (dictGet_isSome_iff res k).mpr ((hx.2.1 k).mpr hk)⟩
+    ∧ (∀ k ∈ dictKeys (allWrites defaults reqHeaders auth bearer), (wireLookup res k).length = 1)
+    ∧ (∀ name, (wireLookup res name).length ≤ 1) := by
   rw [prepareHeaders_spec] at h
   cases he : auth.bind firstErr with
   | some e => simp [he] at h
   | none =>
     simp only [he, Except.ok.injEq] at h
     subst h
-    rw [wireLookup_dictUpdate _ hc name]
-    simp [allWrites, lastWriteCI_append, Option.or_assoc]
+    have hw := wireLookup_dictUpdateCI_nil (allWrites defaults reqHeaders auth bearer)
+    refine ⟨hw, fun name => ?_, fun k hk => ?_, fun name => ?_⟩
+    · rw [hw]; simp [allWrites, lastWriteCI_append, Option.or_assoc]
+    · rw [hw]
+      have := (lastWriteCI_isSome_of_mem _ k k hk (ciEq_refl k))
+      cases hl : lastWriteCI (allWrites defaults reqHeaders auth bearer) k with
+      | none => simp [hl] at this
+      | some v => simp
+    · rw [hw]; cases lastWriteCI (allWrites defaults reqHeaders auth bearer) name <;> simp
 
-/-- ✗ witness: default `x-b: d`, per-request `X-B: r`, no auth.  The dict handed to httpx has BOTH
-    entries, both lines go out (`x-b: d`, `X-B: r`): the per-request header does not replace the default,
-    although the last writer of that header name wrote `r` only. -/
-theorem header_precedence_counterexample :
+/-- The hypothesis of `header_precedence` is satisfiable on an input with case variants in every layer:
+    the former witness of F27a extended by a plug-in that writes a third spelling. -/
+example : ∃ res, prepareHeaders (some [("x-b".toList, "d".toList)]) (some [("X-B".toList, "r".toList)])
+    (some (.headers [("X-b".toList, "p".toList)])) none = .ok res :=
+  ⟨[("X-b".toList, "p".toList)], by decide⟩
+
+/-- Former witness of F27a: default `x-b: d`, per-request `X-B: r`, no auth.  The dict handed to httpx has
+    ONE entry, spelled as the per-request header spelled it, and one line `X-B: r` goes out — the value of
+    the last writer of that header name. -/
+theorem header_precedence_former_witness :
     prepareHeaders (some [("x-b".toList, "d".toList)]) (some [("X-B".toList, "r".toList)]) none none
-        = .ok [("x-b".toList, "d".toList), ("X-B".toList, "r".toList)]
-    ∧ wireLookup [("x-b".toList, "d".toList), ("X-B".toList, "r".toList)] "x-b".toList
-        = ["d".toList, "r".toList]
+        = .ok [("X-B".toList, "r".toList)]
+    ∧ wireLookup [("X-B".toList, "r".toList)] "x-b".toList = ["r".toList]
     ∧ (lastWriteCI (allWrites (some [("x-b".toList, "d".toList)]) (some [("X-B".toList, "r".toList)]) none none)
         "x-b".toList).toList = ["r".toList] := by
   decide
 
-/-- Same defect between a plug-in and a per-request header: `BearerAuth` writes `Authorization`, the
-    caller's lower-case `authorization` stays, two credentials are sent. -/
-theorem header_precedence_counterexample_auth :
+/-- Former witness between a plug-in and a per-request header: `BearerAuth` writes `Authorization`, the
+    caller's lower-case `authorization` is replaced, one credential is sent. -/
+theorem header_precedence_former_witness_auth :
     (match prepareHeaders none (some [("authorization".toList, "mine".toList)])
         (some (.bearer "t".toList)) none with
       | .ok res => wireLookup res "Authorization".toList
-      | .error _ => []) = ["mine".toList, "Bearer t".toList] := by
+      | .error _ => []) = ["Bearer t".toList] := by
   decide
 
-/-- The counterexample is outside the hypothesis of `header_precedence_partial` … -/
-example : ¬ CaseConsistent
-    (allWrites (some [("x-b".toList, "d".toList)]) (some [("X-B".toList, "r".toList)]) none none) := by
-  unfold CaseConsistent; decide
-
-/-- … and the hypothesis is satisfiable on a non-trivial input (override of a default by a per-request
-    header of the same spelling, plug-in writing over both). -/
-example : CaseConsistent (allWrites (some [("X-B".toList, "d".toList), ("Accept".toList, "a".toList)])
-    (some [("X-B".toList, "r".toList)])
-    (some (.composite [.bearer "t".toList, .headers [("X-B".toList, "p".toList)]])) none) := by
-  unfold CaseConsistent; decide
-
+/-- Plug-ins among themselves: the last plug-in in composition order wins even when an earlier one used the
+    spelling again that is already in the dict (`Authorization` — `authorization` — `Authorization`). -/
 example :
     (match prepareHeaders (some [("X-B".toList, "d".toList), ("Accept".toList, "a".toList)])
-        (some [("X-B".toList, "r".toList)])
-        (some (.composite [.bearer "t".toList, .headers [("X-B".toList, "p".toList)]])) none with
-      | .ok res => (wireLookup res "x-b".toList, res)
-      | .error _ => ([], [])) =
-      (["p".toList], [("X-B".toList, "p".toList), ("Accept".toList, "a".toList),
-        ("Authorization".toList, "Bearer t".toList)]) := by
+        (some [("x-b".toList, "r".toList)])
+        (some (.composite [.bearer "t".toList, .headers [("authorization".toList, "low".toList)],
+          .oauth2 "o".toList none, .headers [("X-b".toList, "p".toList)]])) none with
+      | .ok res => (wireLookup res "x-b".toList, wireLookup res "AUTHORIZATION".toList, res)
+      | .error _ => ([], [], [])) =
+      (["p".toList], ["Bearer o".toList], [("Accept".toList, "a".toList),
+        ("Authorization".toList, "Bearer o".toList), ("X-b".toList, "p".toList)]) := by
   decide
 
 /-! ## API key placement
@@ -161,17 +169,15 @@ example :
   ✗ FULL STATEMENT (false): `location = "query"` → the request's params contain `name ↦ key`;
   `location = "cookie"` → the request's cookies contain `name ↦ key`. -/
 
-/-- `location="header"`: the request carries `name: key` (dict view and wire view), whatever the defaults
-    and per-request headers. -/
+/-- `location="header"`: the request carries `name: key` — in the dict under exactly the configured spelling,
+    on the wire as the ONLY line of that name — whatever the defaults and per-request headers. -/
 theorem apikey_header_placed (defaults reqHeaders : Option Dict) (bearer : Option Str) (key name : Str) :
     ∃ res, prepareHeaders defaults reqHeaders (some (.apiKey key locHeader name)) bearer = .ok res
-      ∧ dictGet res name = some key ∧ key ∈ wireLookup res name := by
-  refine ⟨dictUpdate [] (allWrites defaults reqHeaders (some (.apiKey key locHeader name)) bearer), ?_, ?_⟩
+      ∧ dictGet res name = some key ∧ wireLookup res name = [key] := by
+  refine ⟨dictUpdateCI [] (allWrites defaults reqHeaders (some (.apiKey key locHeader name)) bearer), ?_, ?_, ?_⟩
   · rw [prepareHeaders_spec]; simp [firstErr]
-  · have : dictGet (dictUpdate [] (allWrites defaults reqHeaders (some (.apiKey key locHeader name)) bearer)) name
-        = some key := by
-      simp [dictGet_dictUpdate, allWrites, authWrites, contrib, lastWrite_append, lastWrite]
-    exact ⟨this, mem_wireLookup_of_dictGet _ _ _ this⟩
+  · simp [dictGet_dictUpdateCI, allWrites, authWrites, contrib, lastWriterCI_append, lastWriterCI, ciEq_refl]
+  · simp [wireLookup_dictUpdateCI_nil, allWrites, authWrites, contrib, lastWriteCI_append, lastWriteCI, ciEq_refl]
 
 /-- ✗ TOTAL DEFECT.  With `location="query"` or `"cookie"` the key reaches httpx nowhere: for EVERY key, name,
     default headers, bearer token and caller arguments the keyword arguments of `client.request` are the
@@ -259,17 +265,17 @@ theorem composite_raises_iff (ps : List Plugin) (a : RequestArgs) :
 /-! ## bearer_token -/
 
 /-- With an auth plug-in the `bearer_token` constructor argument is ignored; without one it sets
-    `Authorization: Bearer <t>` (overwriting an identically spelled default / per-request header). -/
+    `Authorization: Bearer <t>` (replacing a default / per-request header of that name, however spelled). -/
 theorem bearer_token_only_without_auth (defaults reqHeaders : Option Dict) :
     (∀ (p : Plugin) (bearer : Option Str),
         prepareHeaders defaults reqHeaders (some p) bearer = prepareHeaders defaults reqHeaders (some p) none)
     ∧ (∀ t : Str, ∃ res, prepareHeaders defaults reqHeaders none (some t) = .ok res
-        ∧ res = dictSet (baseHeaders defaults reqHeaders) hAuthorization (bearerValue t)
+        ∧ res = dictSetCI (baseHeaders defaults reqHeaders) hAuthorization (bearerValue t)
         ∧ dictGet res hAuthorization = some (bearerValue t))
     ∧ prepareHeaders defaults reqHeaders none none = .ok (baseHeaders defaults reqHeaders) := by
   refine ⟨fun p bearer => by simp [prepareHeaders], fun t => ⟨_, by simp [prepareHeaders], rfl, ?_⟩,
     by simp [prepareHeaders]⟩
-  simp [dictGet_dictSet]
+  simp [dictGet_dictSetCI]
 
 /-! ## passthrough -/
 
@@ -305,12 +311,12 @@ theorem oauth2_refresh (defaults reqHeaders : Option Dict) (bearer : Option Str)
       ∧ dictGet res hAuthorization = some (bearerValue tok))
     ∧ pluginAfter (.oauth2 tok (some cb))
         = .oauth2 (if cb tok ≠ [] ∧ cb tok ≠ tok then cb tok else tok) (some cb) := by
-  refine ⟨⟨dictUpdate [] (allWrites defaults reqHeaders (some (.oauth2 tok (some cb))) bearer), ?_, ?_⟩,
-    ⟨dictUpdate [] (allWrites defaults reqHeaders (some (.oauth2 tok none)) bearer), ?_, ?_⟩, ?_⟩
+  refine ⟨⟨dictUpdateCI [] (allWrites defaults reqHeaders (some (.oauth2 tok (some cb))) bearer), ?_, ?_⟩,
+    ⟨dictUpdateCI [] (allWrites defaults reqHeaders (some (.oauth2 tok none)) bearer), ?_, ?_⟩, ?_⟩
   · rw [prepareHeaders_spec]; simp [firstErr]
-  · simp [dictGet_dictUpdate, allWrites, authWrites, contrib, lastWrite_append, lastWrite, effToken]
+  · simp [dictGet_dictUpdateCI, allWrites, authWrites, contrib, lastWriterCI_append, lastWriterCI, ciEq_refl, effToken]
   · rw [prepareHeaders_spec]; simp [firstErr]
-  · simp [dictGet_dictUpdate, allWrites, authWrites, contrib, lastWrite_append, lastWrite, effToken]
+  · simp [dictGet_dictUpdateCI, allWrites, authWrites, contrib, lastWriterCI_append, lastWriterCI, ciEq_refl, effToken]
   · simp [pluginAfter, effToken]
 
 /-- Non-vacuity: refreshed, refused because empty, refused because equal; second request after a refresh. -/
